@@ -70,6 +70,7 @@ impl Incremental {
             Ok(options) => options,
             Err(err) => return Outcome::BatchErr(format!("harness: {}", err)),
         };
+        crate::include_rule::reset_loop_guard();
         let result = exec::catch(|| {
             if let Some(tree) = self.tree.as_mut() {
                 tree.process(resources, options).map(|()| None)
@@ -343,16 +344,36 @@ impl Oracle {
         }
         match (&fresh_outcome, outcome) {
             (Outcome::BatchErr(_), Outcome::BatchErr(_)) => {
-                if !record.writes.is_empty() || !record.removes.is_empty() {
+                // both fail as a whole (unreadable or invalid configuration, cyclic work):
+                // whatever the fresh run left behind is what the pass must leave behind
+                let inc_tree = self.view(&current);
+                let fresh_tree = self.view(&fresh.snapshot());
+                if inc_tree != fresh_tree && pass_index == 0 {
                     violations.push(Violation::new(
                         P,
                         "equal",
                         "write-on-batch-error",
                         format!(
-                            "{}: the pass failed as a whole but wrote {:?} / removed {:?}",
+                            "{}: the pass failed as a whole like a fresh run, but left another tree (wrote {:?} / removed {:?})",
                             at, record.writes, record.removes
                         ),
                     ));
+                } else if pass_index > 0 && (!record.writes.is_empty() || !record.removes.is_empty()) {
+                    let only_fresh_writes = record
+                        .writes
+                        .iter()
+                        .all(|w| fresh_tree.get(w) == inc_tree.get(w));
+                    if !only_fresh_writes || !record.removes.is_empty() {
+                        violations.push(Violation::new(
+                            P,
+                            "equal",
+                            "write-on-batch-error",
+                            format!(
+                                "{}: the pass failed as a whole but wrote {:?} / removed {:?}",
+                                at, record.writes, record.removes
+                            ),
+                        ));
+                    }
                 }
                 return;
             }
@@ -928,6 +949,11 @@ impl C10 {
             if scn.ops.iter().any(|op| references(op, &path)) {
                 continue;
             }
+            if let Some(deps) = &scn.opts.include_deps {
+                if deps.contains_key(&path) || deps.values().any(|v| v.contains(&path)) {
+                    continue;
+                }
+            }
             if scn.entries[i].body == Body::Dir
                 && scn
                     .entries
@@ -1030,6 +1056,26 @@ impl C10 {
                 }
             }
         }
+        if let Some(deps) = &scn.opts.include_deps {
+            for key in deps.keys() {
+                let mut c = scn.clone();
+                if let Some(d) = c.opts.include_deps.as_mut() {
+                    d.remove(key);
+                }
+                out.push(c);
+            }
+            for (key, list) in deps {
+                if list.len() > 1 {
+                    for i in 0..list.len() {
+                        let mut c = scn.clone();
+                        if let Some(d) = c.opts.include_deps.as_mut() {
+                            d.get_mut(key).unwrap().remove(i);
+                        }
+                        out.push(c);
+                    }
+                }
+            }
+        }
         if scn.use_add_source {
             let mut c = scn.clone();
             c.use_add_source = false;
@@ -1071,6 +1117,10 @@ impl Property for C10 {
         // most runs steer clear of the triggers of open known findings so that one open
         // finding does not mask the rest of the space; every 8th run does not
         let knobs = c10gen::Knobs {
+            // the work-item graph is only reachable through a harness-supplied rule and
+            // every use of it currently ends in a non-terminating work loop (known
+            // finding D13), so this dimension is opt-in: VERIF_GRAPH=1
+            include_graph: index % 10 == 4 && std::env::var_os("VERIF_GRAPH").is_some(),
             layer: if index % 4 == 3 { Layer::L2 } else { Layer::L1 },
             max_ops: 12,
             allow_faults: true,
@@ -1108,6 +1158,9 @@ impl Property for C10 {
         counters.insert("relaxed_failing_sources".to_owned(), stats.relaxed_sources);
         counters.insert(format!("backend:{:?}", scn.backend), 1);
         counters.insert(format!("layer:{:?}", scn.layer), 1);
+        if scn.opts.include_deps.is_some() {
+            counters.insert("harness_rule_verif_include".to_owned(), 1);
+        }
         counters.insert("simulated_ms".to_owned(), stats.sim_ms);
         counters.insert("idle_passes".to_owned(), stats.idle_passes);
         counters.insert("idle_pass_writes".to_owned(), stats.idle_pass_writes);
